@@ -39,7 +39,7 @@ def run(ctx):
         ctx.check_model(SPEC, 'MCChaseLev.tla', 'MC_full.cfg', WHAT, workers=4, java_opts=JOPTS,
                         label='owner 6 ops (incl. own steal) x 2 stealers, capacity 2')
         for cfg, lab in (('MC_all3_two.cfg', 'all owner histories of length 3 x 2 stealers, capacity 1,2'),
-                         ('MC_all3_one.cfg', 'all owner histories of length 3 x 1 stealer (3 ops), capacity 1,2,4'),
+                         ('MC_all3_one.cfg', 'all owner histories of length 3 x 1 stealer (3 ops), capacity 4'),
                          ('MC_all3_three.cfg', 'all owner histories of length 3 x 3 stealers, capacity 2'),
                          ('MC_all4_pair.cfg', 'all owner histories of length 4 x 1 stealer (2 ops), capacity 1,2')):
             ctx.check_model(SPEC, 'MCChaseLev.tla', cfg, WHAT, workers=4, java_opts=JOPTS, vacuity_exempt=('Init', 'ObsLdBot', 'ObsLdTop'),
